@@ -31,7 +31,13 @@ TDerived == /\ Is("Derived") /\ Adv
                    never == UNION {Shadowed(Ev.cls, c) : c \in cs}
                IN /\ used \cap never = {}
                   /\ used \subseteq may
-TNext == TGenerate \/ TDerived
+\* one comparison of a real derived instance: the verdicts of the field instances (from the field-by-field reference) and the
+\* verdict of the derived instance; the specification's composition decides what the latter must be
+TObs == /\ Is("DObs") /\ Adv
+        /\ CASE Ev.cls = "eq" -> Ev.got = CEqV(Ev.feq, 1)
+             [] Ev.cls = "ord" -> Ev.got = CLessV(Ev.feq, Ev.fless, 1) /\ Ev.goteq = CEqV(Ev.feq, 1)
+             [] Ev.cls = "hash" -> Ev.goteq = CEqV(Ev.feq, 1) /\ (CEqV(Ev.feq, 1) => Ev.hasheq)
+TNext == TGenerate \/ TDerived \/ TObs
 TInit == l = 1 /\ ks = <<>> /\ os = <<>> /\ ms = <<>> /\ va = <<>> /\ vb = <<>> /\ vc = <<>>
 TSpec == TInit /\ [][TNext]_<<l, dvars>>
 HighWater == TLCSet(1, IF TLCGet(1) < l THEN l ELSE TLCGet(1))
